@@ -48,7 +48,8 @@ ASSUMPTIONS = ["SimNet pipes are reliable ordered byte streams; virtual time onl
                "has no half-close (the HTTP layer ends the whole tunnel), there only a prefix is demanded"]
 EXPECTED_PROBES = ["data_in_handshake_flight", "multi_record_flight", "cut_flight", "close_notify_end", "fin_end",
                    "other_sends_during_close", "server_data_before_client_tls_done", "mode_connect", "mode_transparent",
-                   "mode_reverse_tls", "tls12_leg", "half_close_other_keeps_sending", "half_close_after_tcp_fin"]
+                   "mode_reverse_tls", "tls12_leg", "half_close_other_keeps_sending", "half_close_after_tcp_fin",
+                   "abortive_end", "abort_fault_same", "abort_fault_own", "abort_fault_inside"]
 
 HOST = "o.test"
 ORIGIN_IP = "93.184.216.34"
@@ -119,6 +120,20 @@ def generate(rng, tier):
     # more chunks after it has seen the close (drawn from a site of its own so that older scenarios keep their shape)
     r2 = rng.at("c14-after")
     sc["close"]["after_ops"] = [_op(r2) for _ in range(r2.choice([0, 1, 2, 2, 3, 4]))]
+    # abortive end: k intact application records, then a record damaged on the wire (its authentication fails at
+    # the proxy, which answers with a fatal alert), then FIN.  The damaged record travels in the same segment as the
+    # last intact data, in a segment of its own, or is cut somewhere inside.  (Own rng site again.)
+    r3 = rng.at("c14-abort")
+    if r3.random() < 0.22:
+        sc["close"]["kind"] = "abort"
+        sc["close"]["abort"] = {"layout": r3.choice(["same", "same", "own", "inside"]), "at": round(r3.random(), 4),
+                                "poison": r3.choice([1, 16, 300]), "flip": r3.choice(["tag", "tag", "body"])}
+        if not sc["close"]["tail"]:
+            sc["close"]["tail"] = _op(r3, True)
+        if r3.random() < 0.6:
+            # the other peer stays silent after the fault (otherwise the proxy has to write into the dead session)
+            sc["close"]["other_ops"] = []
+            sc["close"]["after_ops"] = []
     return sc
 
 
@@ -331,8 +346,36 @@ def _execute(sc):
                 chunk = A.data[A.pos:A.pos + n]
                 A.pos += len(chunk)
                 e.write_records(chunk, tail["sizes"])
-                if close.get("split_alert"):
+                if close.get("split_alert") and kind != "abort":
                     await e.flush(tail["cuts"], tail.get("gaps", ()))
+            if kind == "abort":
+                ab = close.get("abort", {})
+                good = e.pop_out()
+                # offset of the last intact record inside the flight
+                pos = last = 0
+                while pos + 5 <= len(good):
+                    last = pos
+                    pos += 5 + int.from_bytes(good[pos + 3:pos + 5], "big")
+                e.obj.write(random.Random(sc["dseed"] ^ 0xBAD).randbytes(max(1, ab.get("poison", 16))))
+                bad = bytearray(e.pop_out())
+                if ab.get("flip") == "body":
+                    bad[5] ^= 0x40
+                else:
+                    bad[-1] ^= 0x01          # last byte of the authentication tag / MAC
+                cuts = [k for k in T.abs_cuts(tail["cuts"] if tail else (), len(good)) if k < last]
+                lay = ab.get("layout", "same")
+                if lay == "own":
+                    cuts.append(len(good))
+                elif lay == "inside":
+                    cuts.append(len(good) + min(len(bad) - 1, max(1, int(ab.get("at", 0.5) * len(bad)))))
+                probe("abortive_end")
+                probe("abort_fault_" + lay)
+                wire = good + bytes(bad)
+                e.raw_out += len(wire)
+                await A.conn.send(wire, cuts=cuts, gaps=tail.get("gaps", ()) if tail else ())
+                await asyncio.sleep(0.05)
+                A.conn.send_eof()
+                return
             if kind in ("notify", "notify_fin"):
                 e.send_close_notify()
                 probe("close_notify_end")
@@ -365,10 +408,11 @@ def _execute(sc):
 
         if not B.end.closed_in:
             log.append(("far_close_missing", A.name, kind))
-            if kind == "fin":
-                # the statement speaks about close_notify only; a bare FIN that is not relayed is just counted
+            if kind in ("fin", "abort"):
+                # the statement speaks about close_notify only; a bare FIN that is not relayed is just counted.
+                # What IS owed in any case: every byte sent in intact records before the end / before the fault.
                 probe("bare_fin_not_relayed")
-                compare(dirn, B.end.plain, A.data[:A.pos], "close", True)
+                compare(dirn, B.end.plain, A.data[:A.pos], "abort" if kind == "abort" else "close", True)
                 return
             violate("close_not_delivered",
                     {"closer": A.name, "socket_left_open_after_disconnected_hook": socket_left_open(B)},
@@ -380,7 +424,7 @@ def _execute(sc):
             log.append(("far_close", ev[0], ev[1], A.pos))
             if B.end.read_error:
                 violate("far_side_tls_error", {"closer": A.name, "kind": kind}, f"{B.name} read error {B.end.read_error}")
-            elif not compare(dirn, B.end.plain, A.data[:A.pos], "close", True):
+            elif not compare(dirn, B.end.plain, A.data[:A.pos], "abort" if kind == "abort" else "close", True):
                 pass
         # half-close: A has only shut its write side and keeps reading; B answers with more chunks
         if close.get("after_ops") and not B.end.read_error:
@@ -405,6 +449,13 @@ def _execute(sc):
         # half-close; the HTTP layer around it turns the end of either direction into the end of the whole tunnel
         # (HttpStream.passthrough PASSTHROUGH_CLOSE / client EOF), so there only a prefix is owed.
         full = mode != "connect"
+        if kind == "abort":
+            # the proxy has answered the damaged record with a fatal alert: A's TLS session is gone, nothing more can
+            # be delivered to it and no orderly second close is owed
+            compare(rdir, A.end.plain, B.data[:B.pos], "close", False)
+            log.append(("end_abort", len(C.end.plain), len(O.end.plain)))
+            await asyncio.sleep(1.0)
+            return
         okr = compare(rdir, A.end.plain, B.data[:B.pos], "half_close" if full else "close", full)
         if okr and len(A.end.plain) == B.pos and B.pos > sent_at_sync[B.name]:
             probe("reverse_complete_after_first_close")
@@ -434,9 +485,12 @@ def _execute(sc):
             print("  log", round(l[0], 6), l[1], l[2][:400])
         print("hooks", [(round(t, 4), n) for t, n, _ in w.hooks])
         print("log", log)
-    cv = T.crash_violation(w)
+    cv = T.crash_violation(w, {"after_damaged_record": bool(probes.get("abortive_end"))})
     if cv:
-        viol.insert(0, cv)
+        # an exception that escaped the layer stack leaves its generators dead; whatever is lost afterwards is a
+        # consequence, so only the crash itself is reported for such a run
+        # (findings of the synchronisation point come before any ending and stay)
+        viol[:] = [cv] + [v for v in viol if v["key"].get("phase") == "sync"]
     for A in (C, O):
         for nrec, ncuts in A.flights:
             if nrec > 1:
